@@ -932,7 +932,7 @@ impl AsnDefWriter {
     }
 
     /// ITU-T X.680 | ISO/IEC 8824-1, G.2.12.3
-    fn assign_implicit_tags(fields: &[Field]) -> Vec<Field> {
+    pub(crate) fn assign_implicit_tags(fields: &[Field]) -> Vec<Field> {
         let any_explicit = fields.iter().any(|f| f.tag.is_some());
         if any_explicit {
             fields.to_vec()
@@ -949,7 +949,7 @@ impl AsnDefWriter {
         }
     }
 
-    fn sort_fields_canonically(
+    pub(crate) fn sort_fields_canonically(
         fields: &[Field],
         extended_after_index: Option<usize>,
     ) -> Vec<Field> {
